@@ -753,6 +753,9 @@ func TestVerifC45(t *testing.T) {
 	})
 	defer bud.done()
 	// one bubble for the whole process (see zz_c45_common_test.go)
+	// The engine's per-bubble wall limit assumes one execution per bubble; here the bubble lives as long
+	// as the process, and c45Budget's own watchdog bounds the real time of every single case.
+	vsched.HangAfter = 1000 * time.Hour
 	p := vsched.Bubble(t, func() {
 		c45ScenarioSignals(bud, &cur)
 		c45ScenarioLinear(bud, &cur)
